@@ -1116,17 +1116,25 @@ func (u *udpConn) Close() error {
 	if parent.connUDP != u {
 		// This connection is created by reading from a UDP server,
 		// need to clear itself from the UDP server.
-		parent.mux.Lock()
-		delete(parent.connUDP.conns, u.rAddrKey)
-		parent.mux.Unlock()
+		// The map is guarded by the server's udpConn.mux (see getConn).
+		pu := parent.connUDP
+		pu.mux.Lock()
+		delete(pu.conns, u.rAddrKey)
+		pu.mux.Unlock()
 	} else {
 		// This connection is a UDP server or dialer, need to close itself
 		// and close all children if this is a server.
 		_ = syscall.Close(u.parent.fd)
-		for _, c := range u.conns {
+		// children remove themselves from the map when they are closed,
+		// possibly at the same time from other goroutines: detach the map
+		// first instead of iterating over the shared one.
+		u.mux.Lock()
+		conns := u.conns
+		u.conns = nil
+		u.mux.Unlock()
+		for _, c := range conns {
 			_ = c.Close()
 		}
-		u.conns = nil
 	}
 	return nil
 }
